@@ -306,3 +306,80 @@ func TallyCommitTrustingDetail(cache *SigCache, chainID string, vals *types.Vali
 	}
 	return t
 }
+
+// CanonicalVoteSignBytesByHand encodes the same message as
+// CanonicalVoteSignBytes byte by byte from the .proto definition
+// (proto/tendermint/types/canonical.proto, spec/core/encoding.md) without the
+// generated marshaller:
+//
+//	CanonicalVote            1 type varint, 2 height sfixed64, 3 round sfixed64,
+//	                         4 block_id message (ABSENT iff the block id is the zero id),
+//	                         5 timestamp message (always present), 6 chain_id string
+//	CanonicalBlockID         1 hash bytes, 2 part_set_header message (always present)
+//	CanonicalPartSetHeader   1 total uint32 varint, 2 hash bytes
+//	google.protobuf.Timestamp 1 seconds int64 varint, 2 nanos int32 varint
+//
+// proto3 scalar fields equal to their zero value are omitted.  Checks use it to
+// cross-examine the marshaller-based encoding; a block id that is not zero but
+// incomplete (e.g. hash only) must stay present in the sign bytes.
+func CanonicalVoteSignBytesByHand(chainID string, msgType int32, height int64, round int32, blockID types.BlockID, ts time.Time) []byte {
+	uv := func(b []byte, x uint64) []byte {
+		for x >= 0x80 {
+			b = append(b, byte(x)|0x80)
+			x >>= 7
+		}
+		return append(b, byte(x))
+	}
+	bytesField := func(b []byte, tag byte, v []byte) []byte {
+		b = append(b, tag)
+		b = uv(b, uint64(len(v)))
+		return append(b, v...)
+	}
+	fixed := func(b []byte, tag byte, x int64) []byte {
+		b = append(b, tag)
+		var f [8]byte
+		binary.LittleEndian.PutUint64(f[:], uint64(x))
+		return append(b, f[:]...)
+	}
+	var body []byte
+	if msgType != 0 {
+		body = append(body, 0x08)
+		body = uv(body, uint64(int64(msgType)))
+	}
+	if height != 0 {
+		body = fixed(body, 0x11, height)
+	}
+	if round != 0 {
+		body = fixed(body, 0x19, int64(round))
+	}
+	if !IsNilBlockID(blockID) {
+		var psh []byte
+		if blockID.PartSetHeader.Total != 0 {
+			psh = append(psh, 0x08)
+			psh = uv(psh, uint64(blockID.PartSetHeader.Total))
+		}
+		if len(blockID.PartSetHeader.Hash) != 0 {
+			psh = bytesField(psh, 0x12, blockID.PartSetHeader.Hash)
+		}
+		var bid []byte
+		if len(blockID.Hash) != 0 {
+			bid = bytesField(bid, 0x0a, blockID.Hash)
+		}
+		bid = bytesField(bid, 0x12, psh)
+		body = bytesField(body, 0x22, bid)
+	}
+	var tsb []byte
+	if s := ts.Unix(); s != 0 {
+		tsb = append(tsb, 0x08)
+		tsb = uv(tsb, uint64(s))
+	}
+	if n := ts.Nanosecond(); n != 0 {
+		tsb = append(tsb, 0x10)
+		tsb = uv(tsb, uint64(n))
+	}
+	body = bytesField(body, 0x2a, tsb)
+	if chainID != "" {
+		body = bytesField(body, 0x32, []byte(chainID))
+	}
+	return append(uv(nil, uint64(len(body))), body...)
+}
